@@ -32,6 +32,7 @@ type item struct {
 	Hash   string
 	Plain  bool // evidence exactly as a correct node builds it: completeness is required
 	Height uint64
+	Idx    int
 }
 
 var items []*item
@@ -103,8 +104,9 @@ func buildItems() {
 		} else {
 			it.Wire = w
 		}
+		it.Idx = len(items)
 		items = append(items, it)
-		itemByHash[strings.ToUpper(strings.TrimPrefix(it.Hash, "0x"))] = it
+		itemByHash[normHash(it.Hash)] = it
 	}
 }
 
@@ -128,56 +130,45 @@ func alphabet() []token {
 	for i := range items {
 		ts = append(ts, token{"add", []int{i}})
 	}
-	for _, i := range []int{iE1, iE2, iEold} {
+	for _, i := range []int{iE1, iE2} {
 		ts = append(ts, token{"cons", []int{i}})
 	}
 	for i := range items {
 		ts = append(ts, token{"check", []int{i}})
 	}
-	for _, p := range [][]int{{iE1, iE2}, {iE1, iE1}, {iE1, iE1idx}, {iE1, iE1type}, {iE2, iE1}, {iE1idx, iE1idx}} {
+	for _, p := range [][]int{{iE1, iE2}, {iE1, iE1}, {iE1, iE1idx}, {iE1, iE1type}} {
 		ts = append(ts, token{"check", p})
 	}
-	for _, s := range [][]int{{}, {iE1}, {iE2}, {iE1idx}, {iE1type}, {iE1sig}, {iEold}, {iE1, iE2}, {iE1, iE1idx}, {iE1, iE1}} {
+	commits := [][]int{{}, {iE1}, {iE2}, {iE1idx}, {iEold}, {iE1, iE2}}
+	if r.Thorough() {
+		commits = append(commits, []int{iE1type}, []int{iE1sig}, []int{iE1, iE1idx}, []int{iE1, iE1})
+	}
+	for _, s := range commits {
 		ts = append(ts, token{"commit", s})
 	}
 	ts = append(ts, token{"restart", nil})
 	return ts
 }
 
-// ---- model
+// ---- model: the chain height and what is committed. What is pending is read from the pool and
+// judged transition by transition (who may appear, who may disappear), so the model is a function of
+// the implementation state and need not be part of the state key.
 
 type model struct {
-	H        uint64
-	Must     map[int]bool    // accepted through add / cons: must be listed as pending until committed or expired
-	May      map[int]bool    // stored as a side effect (CheckEvidence) or by an acceptance already reported as unsound
-	Hashes   map[string]bool // evidence hashes committed
-	Classes  map[string]bool // double-signings committed
-	Executed map[string]bool
+	H         uint64
+	Hashes    map[string]bool  // evidence hashes committed
+	Classes   map[string][]int // double-signing -> items committed for it
+	Committed []int
 }
 
 func newModel() *model {
-	return &model{H: baseHeadB, Must: map[int]bool{}, May: map[int]bool{}, Hashes: map[string]bool{}, Classes: map[string]bool{}}
+	return &model{H: baseHeadB, Hashes: map[string]bool{}, Classes: map[string][]int{}}
 }
 
-func (m *model) digest() string {
-	var a, b, c []string
-	for i := range m.Must {
-		a = append(a, items[i].Name)
-	}
-	for i := range m.May {
-		b = append(b, items[i].Name)
-	}
-	for h := range m.Hashes {
-		c = append(c, itemName(h))
-	}
-	sort.Strings(a)
-	sort.Strings(b)
-	sort.Strings(c)
-	return fmt.Sprintf("must%v may%v comm%v", a, b, c)
-}
+func normHash(h string) string { return strings.ToUpper(strings.TrimPrefix(h, "0x")) }
 
 func itemName(hash string) string {
-	if it := itemByHash[strings.ToUpper(strings.TrimPrefix(hash, "0x"))]; it != nil {
+	if it := itemByHash[normHash(hash)]; it != nil {
 		return it.Name
 	}
 	return "?" + hash
@@ -198,17 +189,43 @@ func (m *model) acceptable(i int) (ok bool, why string) {
 	if !ref.Valid {
 		return false, whyString(ref.Why)
 	}
-	if m.Classes[it.Class] {
+	if len(m.Classes[it.Class]) > 0 {
 		return false, "already-committed"
 	}
 	return true, ""
+}
+
+func (m *model) expired(i int) bool {
+	return items[i].Height <= m.H && expiryClass(m.ctx(), items[i].Height) == "both"
+}
+
+// variantOf names what distinguishes the items involved from the plain evidence: "same-evidence" when
+// nothing does, otherwise the first non-plain member (idx / sig / type / swap).
+func variantOf(is []int) string {
+	for _, i := range is {
+		if n := items[i].Name; strings.HasPrefix(n, "E1") && len(n) > 2 {
+			return "variant:" + n[2:]
+		}
+	}
+	return "same-evidence"
+}
+
+func (m *model) clone() *model {
+	c := &model{H: m.H, Hashes: map[string]bool{}, Classes: map[string][]int{}}
+	for k, v := range m.Hashes {
+		c.Hashes[k] = v
+	}
+	for k, v := range m.Classes {
+		c.Classes[k] = append([]int{}, v...)
+	}
+	return c
 }
 
 // ---- violations: per (oracle, subject) the shortest history
 
 type bViolation struct {
 	Oracle, Subject, What string
-	History                []string
+	History               []string
 }
 
 var (
@@ -252,13 +269,9 @@ func pendingItems(p *evidence.Pool) (names []string, idxs map[int]bool, unknown 
 	pend, _ := evidence.VerifC19Keys(p)
 	for _, k := range pend {
 		h := k[strings.IndexByte(k, '/')+1:]
-		if it := itemByHash[strings.ToUpper(h)]; it != nil {
+		if it := itemByHash[normHash(h)]; it != nil {
 			names = append(names, it.Name)
-			for i, x := range items {
-				if x == it {
-					idxs[i] = true
-				}
-			}
+			idxs[it.Idx] = true
 		} else {
 			unknown = append(unknown, k)
 		}
@@ -271,24 +284,32 @@ func committedHashes(p *evidence.Pool) []string {
 	_, comm := evidence.VerifC19Keys(p)
 	var out []string
 	for _, k := range comm {
-		out = append(out, strings.ToUpper(k[strings.IndexByte(k, '/')+1:]))
+		out = append(out, normHash(k[strings.IndexByte(k, '/')+1:]))
 	}
 	sort.Strings(out)
 	return out
 }
 
+// key: every field of the pool that an operation of the alphabet reads. The gossip list (evidenceList)
+// is left out: only the reactor reads it, none of add / cons / check / commit / restart / PendingEvidence
+// depends on its content, so two states that differ only there have the same futures here.
 func (l *live) key() string {
 	v := evidence.VerifC19Inspect(l.d.pool)
 	pn, _, unk := pendingItems(l.d.pool)
-	var ls []string
-	for _, e := range v.List {
-		ls = append(ls, itemName(e.Hash().Hex()))
-	}
 	var cs []string
 	for _, h := range committedHashes(l.d.pool) {
 		cs = append(cs, itemName(h))
 	}
-	return fmt.Sprintf("H%d|P%v%v|C%v|S%d|L%v|ph%d|pt%d|sh%d|%s", l.d.state.LastBlockHeight, pn, unk, cs, v.Size, ls, v.PruningHeight, v.PruningTime.UnixNano(), v.StateHeight, l.m.digest())
+	return fmt.Sprintf("H%d|P%v%v|C%v|S%d|ph%d|pt%d|sh%d", l.d.state.LastBlockHeight, pn, unk, cs, v.Size, v.PruningHeight, v.PruningTime.UnixNano(), v.StateHeight)
+}
+
+// enabled: AddEvidenceFromConsensus is only called by a consensus that is working on height H+1, with
+// evidence of that height or (late precommits) of height H.
+func (l *live) enabled(tok token) bool {
+	if tok.Kind == "cons" {
+		return items[tok.Is[0]].Height >= l.m.H
+	}
+	return true
 }
 
 // apply executes tok; hist is the history INCLUDING tok (for reporting); judge=false while replaying.
@@ -297,7 +318,7 @@ func (l *live) apply(tok token, hist []string, judge bool) (panicked string) {
 		if x := recover(); x != nil {
 			panicked = short(fmt.Sprint(x))
 			if judge {
-				noteB("panic", tok.String(), "the operation panicked: "+panicked, hist)
+				noteB("panic", tok.Kind, "the operation panicked: "+panicked, hist)
 			}
 		}
 	}()
@@ -308,11 +329,24 @@ func (l *live) apply(tok token, hist []string, judge bool) (panicked string) {
 		}
 	}
 	_, before, _ := pendingItems(d.pool)
+	committedNow := map[int]bool{}
+	// newcomer judges an item that became pending through this operation
+	newcomer := func(i int, viaConsensus bool) {
+		ok, why := m.acceptable(i)
+		switch {
+		case ok || viaConsensus:
+		case why == "already-committed":
+			report("recommitted", variantOf(append([]int{i}, m.Classes[items[i].Class]...)),
+				fmt.Sprintf("%s makes %s pending although the double-signing it is made of is already committed as %s", tok, items[i].Name, tokNames(m.Classes[items[i].Class])))
+		default:
+			report("unsound-accept", why, fmt.Sprintf("%s stores %s although the reference predicate rejects it (%s) at height %d", tok, items[i].Name, why, m.H))
+		}
+	}
 	switch tok.Kind {
 	case "add", "cons":
 		i := tok.Is[0]
 		it := items[i]
-		ok, why := m.acceptable(i)
+		ok, _ := m.acceptable(i)
 		var err error
 		executed := true
 		if tok.Kind == "add" {
@@ -325,61 +359,43 @@ func (l *live) apply(tok token, hist []string, judge bool) (panicked string) {
 			err = d.pool.AddEvidenceFromConsensus(it.Ev)
 		}
 		_, after, _ := pendingItems(d.pool)
-		accepted := executed && after[i] && !before[i]
-		switch {
-		case accepted && !ok && why == "already-committed":
-			report("recommitted", it.Name, fmt.Sprintf("%s makes %s pending although the double-signing it is made of is already committed (evidence hash differs only in fields no signature covers, or the committed test is missing)", tok, it.Name))
-			m.May[i] = true
-		case accepted && !ok && tok.Kind == "add":
-			report("unsound-accept", it.Name, fmt.Sprintf("%s accepted although the reference predicate rejects it (%s) at height %d", tok, why, m.H))
-			m.May[i] = true
-		case accepted && !ok && tok.Kind == "cons":
-			// the consensus path does not verify; what consensus may legitimately hand over is decided in part (c)
-			m.May[i] = true
-		case accepted:
-			m.Must[i] = true
-			delete(m.May, i)
-		case !accepted && ok && it.Plain && executed && !before[i]:
+		if executed && !after[i] && !before[i] && ok && it.Plain {
 			o := "valid-rejected"
 			if tok.Kind == "cons" {
 				o = "consensus-evidence-not-kept"
 			}
 			report(o, it.Name, fmt.Sprintf("%s: reference-valid, uncommitted evidence is not pending afterwards (err=%v)", tok, err))
 		}
+		for j := range after {
+			if !before[j] {
+				newcomer(j, tok.Kind == "cons")
+			}
+		}
 	case "check":
 		var list types.EvidenceList
-		decodable := true
 		for _, i := range tok.Is {
 			if items[i].Wire == nil {
-				decodable = false
+				list = nil
 				break
 			}
 			list = append(list, items[i].Wire)
 		}
-		if !decodable {
+		if list == nil {
 			break // a block carrying it cannot be decoded by anybody
 		}
 		err := d.pool.CheckEvidence(list)
 		want, why, plain := l.listAcceptable(tok.Is)
 		switch {
 		case err == nil && !want:
-			o := "unsound-accept"
-			switch why {
-			case "already-committed":
-				o = "recommitted"
-			case "same-double-signing-twice":
-				o = "twice-in-one-block"
-			case "duplicate":
-				o = "duplicate-in-list-accepted"
-			}
-			report(o, tokNames(tok.Is), fmt.Sprintf("%s returns nil although the list must be refused (%s) at height %d", tok, why, m.H))
+			l.reportListAccepted(tok, why, report)
 		case err != nil && want && plain:
 			report("valid-rejected", tokNames(tok.Is), fmt.Sprintf("%s refuses a list of reference-valid, uncommitted, distinct evidence: %v", tok, err))
 		}
 		_, after, _ := pendingItems(d.pool)
-		for i := range after {
-			if !before[i] && !m.Must[i] {
-				m.May[i] = true
+		for j := range after {
+			if !before[j] && err != nil {
+				// stored although the list was refused: only acceptable members may stay
+				newcomer(j, false)
 			}
 		}
 	case "commit":
@@ -398,53 +414,95 @@ func (l *live) apply(tok token, hist []string, judge bool) (panicked string) {
 				report("valid-block-rejected", tokNames(tok.Is), fmt.Sprintf("a block of height %d carrying reference-valid, uncommitted, distinct evidence is refused by validateBlock: %v", m.H+1, verr))
 			}
 			_, after, _ := pendingItems(d.pool)
-			for i := range after {
-				if !before[i] && !m.Must[i] {
-					m.May[i] = true
+			for j := range after {
+				if !before[j] {
+					newcomer(j, false)
 				}
 			}
 			break
 		}
 		if !want {
-			o := "unsound-accept"
-			switch why {
-			case "already-committed":
-				o = "recommitted"
-			case "same-double-signing-twice", "duplicate":
-				o = "twice-in-one-block"
-			}
-			report(o, tokNames(tok.Is), fmt.Sprintf("validateBlock accepts a block of height %d whose evidence must be refused (%s): the chain would contain it", m.H+1, why))
+			l.reportListAccepted(tok, why, report)
 		}
 		if err := d.commit(b, ps); err != nil {
 			panic(fmt.Sprintf("ApplyBlock failed after ValidateBlock succeeded: %v", err))
 		}
 		m.H++
 		for _, i := range tok.Is {
-			m.Hashes[strings.ToUpper(strings.TrimPrefix(items[i].Hash, "0x"))] = true
-			m.Classes[items[i].Class] = true
-			delete(m.Must, i)
-			delete(m.May, i)
+			m.Hashes[normHash(items[i].Hash)] = true
+			m.Classes[items[i].Class] = append(m.Classes[items[i].Class], i)
+			committedNow[i] = true
 		}
 		if !fx.blockTime[m.H].Equal(b.Time()) {
 			panic(fmt.Sprintf("harness: block %d has time %v, the fixture schedule says %v", m.H, b.Time(), fx.blockTime[m.H]))
 		}
 	case "restart":
-		pb, _, _ := pendingItems(d.pool)
 		cb := committedHashes(d.pool)
 		if err := d.attach(); err != nil {
 			report("restart-fails", "restart", "evidence.NewPool on the same databases fails: "+err.Error())
 			return
 		}
-		pa, _, _ := pendingItems(d.pool)
 		ca := committedHashes(d.pool)
 		if fmt.Sprint(cb) != fmt.Sprint(ca) {
 			report("restart-loses-committed", "restart", fmt.Sprintf("committed keys before %v, after %v", cb, ca))
 		}
-		_ = pb
-		_ = pa // pending is judged by the invariants below (expired entries may legitimately go)
 	}
-	l.invariants(tok, report)
+	// who disappeared?
+	_, after, unknown := pendingItems(d.pool)
+	for i := range before {
+		if !after[i] && !committedNow[i] && !m.expired(i) {
+			report("accepted-evidence-lost", tok.Kind, fmt.Sprintf("%s removes %s from the pending set although it is neither committed nor expired at height %d", tok, items[i].Name, m.H))
+		}
+	}
+	if len(unknown) > 0 {
+		report("pending-unknown-evidence", "pending", fmt.Sprintf("pending keys of evidence nobody offered: %v", unknown))
+	}
+	// what PendingEvidence lists is exactly the pending keys, none committed, none expired
+	listed := map[int]bool{}
+	evs, _ := d.pool.PendingEvidence(-1)
+	for _, e := range evs {
+		if it := itemByHash[normHash(e.Hash().Hex())]; it != nil {
+			listed[it.Idx] = true
+		}
+	}
+	for i := range after {
+		if !listed[i] {
+			report("accepted-evidence-lost", "not-listed", fmt.Sprintf("after %s the pending key of %s exists but PendingEvidence does not list it (Size()=%d)", tok, items[i].Name, d.pool.Size()))
+		}
+	}
+	for i := range listed {
+		it := items[i]
+		switch {
+		case m.Hashes[normHash(it.Hash)]:
+			report("pending-includes-committed", "same-evidence", fmt.Sprintf("after %s PendingEvidence lists %s, which is committed", tok, it.Name))
+		case m.expired(i):
+			report("pending-includes-expired", "expired", fmt.Sprintf("after %s (height %d) PendingEvidence lists %s of height %d, which exceeds both the height and the time window", tok, m.H, it.Name, it.Height))
+		}
+	}
 	return ""
+}
+
+func (l *live) reportListAccepted(tok token, why string, report func(oracle, subject, what string)) {
+	verb := "CheckEvidence returns nil for"
+	if tok.Kind == "commit" {
+		verb = fmt.Sprintf("validateBlock accepts a block of height %d with", l.m.H+1)
+	}
+	switch why {
+	case "already-committed":
+		var inv []int
+		for _, i := range tok.Is {
+			if c := l.m.Classes[items[i].Class]; len(c) > 0 {
+				inv = append(append(inv, i), c...)
+			}
+		}
+		report("recommitted", variantOf(inv), fmt.Sprintf("%s %s although a double-signing in it is already committed: the chain would contain it twice", verb, tok))
+	case "same-double-signing-twice":
+		report("twice-in-one-block", variantOf(tok.Is), fmt.Sprintf("%s %s: two evidences made of the same two signed votes", verb, tok))
+	case "duplicate":
+		report("duplicate-in-list-accepted", "same-evidence", fmt.Sprintf("%s %s: the same evidence twice", verb, tok))
+	default:
+		report("unsound-accept", why, fmt.Sprintf("%s %s although the reference predicate rejects it (%s) at height %d", verb, tok, why, l.m.H))
+	}
 }
 
 func tokNames(is []int) string {
@@ -479,50 +537,6 @@ func (l *live) listAcceptable(is []int) (ok bool, why string, plain bool) {
 		}
 	}
 	return true, "", plain
-}
-
-// invariants: what PendingEvidence lists is exactly right
-func (l *live) invariants(tok token, report func(oracle, subject, what string)) {
-	m, d := l.m, l.d
-	_, keys, unknown := pendingItems(d.pool)
-	listed := map[int]bool{}
-	evs, _ := d.pool.PendingEvidence(-1)
-	for _, e := range evs {
-		it := itemByHash[strings.ToUpper(strings.TrimPrefix(e.Hash().Hex(), "0x"))]
-		if it == nil {
-			report("pending-unknown-evidence", "pending", "PendingEvidence lists evidence nobody offered")
-			continue
-		}
-		for i, x := range items {
-			if x == it {
-				listed[i] = true
-			}
-		}
-	}
-	if len(unknown) > 0 {
-		report("pending-unknown-evidence", "pending", fmt.Sprintf("pending keys of evidence nobody offered: %v", unknown))
-	}
-	c := m.ctx()
-	for i := range listed {
-		it := items[i]
-		switch {
-		case m.Hashes[strings.ToUpper(strings.TrimPrefix(it.Hash, "0x"))]:
-			report("pending-includes-committed", it.Name, fmt.Sprintf("after %s PendingEvidence lists %s, which is committed", tok, it.Name))
-		case expiryClass(c, it.Height) == "both" && it.Height <= m.H:
-			report("pending-includes-expired", it.Name, fmt.Sprintf("after %s (height %d) PendingEvidence lists %s of height %d, which exceeds both the height and the time window", tok, m.H, it.Name, it.Height))
-		case !m.Must[i] && !m.May[i]:
-			report("pending-never-accepted", it.Name, fmt.Sprintf("after %s PendingEvidence lists %s, which no operation accepted", tok, it.Name))
-		}
-	}
-	for i := range m.Must {
-		it := items[i]
-		if expiryClass(c, it.Height) == "both" {
-			continue // may be pruned
-		}
-		if !listed[i] {
-			report("accepted-evidence-lost", it.Name, fmt.Sprintf("after %s PendingEvidence no longer lists %s although it was accepted, is not committed and not expired (pending key present: %v)", tok, it.Name, keys[i]))
-		}
-	}
 }
 
 func replayHistory(hist []token) (*live, string) {
@@ -563,8 +577,7 @@ func runPartB(maxDepth int) {
 		r.Vacuous("part (b): cannot open the base pool: " + e)
 		return
 	}
-	seen := map[string]bool{l0.key(): true}
-	var seenMu sync.Mutex
+	seen := map[string]bool{l0.key(): true} // read-only while a level is being expanded
 	frontier := []bState{{nil, l0.key()}}
 	r.Add("states", 1)
 	tokenRan := map[string]bool{}
@@ -582,19 +595,27 @@ func runPartB(maxDepth int) {
 		next := make([][]bState, len(frontier))
 		done := par.For(int64(len(frontier)), 1, func() bool { return r.Expired() }, func(si int64) {
 			st := frontier[si]
+			base, why := replayHistory(st.hist)
+			if base == nil {
+				noteB("replay-diverged", "harness", why, histNames(st.hist))
+				return
+			}
+			r.Add("replays", 1)
+			if k := base.key(); k != st.key {
+				noteB("replay-diverged", "harness", "replaying a history gives another state: "+k+" vs "+st.key, histNames(st.hist))
+				return
+			}
 			var l *live
 			for _, tok := range alpha {
+				if !base.enabled(tok) {
+					continue
+				}
 				if l == nil {
-					var why string
-					l, why = replayHistory(st.hist)
-					if l == nil {
-						noteB("replay-diverged", "harness", why, histNames(st.hist))
-						return
-					}
-					r.Add("replays", 1)
+					l = &live{d: base.d.clone(), m: base.m.clone()}
 				}
 				hist := append(histNames(st.hist), tok.String())
 				p := l.apply(tok, hist, true)
+				n := r.Get("transitions")
 				r.Add("transitions", 1)
 				r.Add("traces_validated_against_impl", 1)
 				tokMu.Lock()
@@ -605,22 +626,23 @@ func runPartB(maxDepth int) {
 					continue
 				}
 				k := l.key()
+				if n%64 == 0 {
+					// the clone is validated against a fresh replay of the whole history
+					if l2, why := replayHistory(append(append([]token{}, st.hist...), tok)); l2 == nil || l2.key() != k {
+						got := why
+						if l2 != nil {
+							got = l2.key()
+						}
+						noteB("clone-diverged", "harness", "a cloned pool and a replayed one disagree after "+tok.String()+": "+k+" vs "+got, hist)
+					}
+					r.Add("clone_validations", 1)
+				}
 				if k == st.key {
-					continue // self loop: the live object is still in the state being expanded
+					continue // self loop: the clone is still in the state being expanded
 				}
-				seenMu.Lock()
-				isNew := !seen[k]
-				if isNew {
-					seen[k] = true
-				}
-				seenMu.Unlock()
-				if isNew {
+				if !seen[k] {
 					nh := append(append([]token{}, st.hist...), tok)
 					next[si] = append(next[si], bState{nh, k})
-					r.Add("states", 1)
-					if r.WantSample() && len(nh) >= 3 {
-						r.Sample(map[string]interface{}{"part": "b", "history": histNames(nh), "state": k})
-					}
 				}
 				l = nil
 			}
@@ -628,11 +650,28 @@ func runPartB(maxDepth int) {
 		if done < int64(len(frontier)) {
 			break
 		}
-		var nf []bState
+		// merge: per new state the smallest history (deterministic whatever the worker interleaving)
+		bestOf := map[string]bState{}
 		for _, g := range next {
-			nf = append(nf, g...)
+			for _, c := range g {
+				if old, ok := bestOf[c.key]; !ok || histLess(histNames(c.hist), histNames(old.hist)) {
+					bestOf[c.key] = c
+				}
+			}
+		}
+		var nf []bState
+		for k, c := range bestOf {
+			seen[k] = true
+			nf = append(nf, c)
 		}
 		sort.Slice(nf, func(i, j int) bool { return histLess(histNames(nf[i].hist), histNames(nf[j].hist)) })
+		r.Add("states", int64(len(nf)))
+		for _, c := range nf {
+			if len(c.hist) >= 3 && len(c.hist)%2 == 1 && takeSample("b", 2) {
+				r.Sample(map[string]interface{}{"part": "b", "history": histNames(c.hist), "state": c.key})
+				break
+			}
+		}
 		frontier = nf
 		depthDone = depth
 		fmt.Printf("part (b): depth %d done, %d new states, %d states total\n", depth, len(nf), len(seen))
@@ -656,6 +695,10 @@ func runPartB(maxDepth int) {
 	sort.Strings(ks)
 	for _, k := range ks {
 		v := bViols[k]
+		if v.Subject == "harness" {
+			r.Vacuous(fmt.Sprintf("part (b) machinery: %s after %v: %s", v.Oracle, v.History, v.What))
+			continue
+		}
 		sig := fmt.Sprintf("C19|part=b|history=%s|oracle=%s", strings.Join(v.History, ";"), v.Oracle)
 		r.Violation(sig, v.What, BCase{Part: "b", History: v.History, Oracle: v.Oracle, Subject: v.Subject})
 	}
